@@ -1,6 +1,6 @@
 (* C09 — alternative routes agree; zone files round-trip.
    The zone-line format is regenerated from StructureSimilarity._write_zone (Generated_zone.v). *)
-From Verif Require Import PyLib ModelTypes Generated_zone Model_contact Model_superpose Model_zone Model_rmsd Proofs_zone Proofs_routes Proofs_contact_c05 Proofs_zone_source.
+From Verif Require Import PyLib ModelTypes Generated_zone Model_contact Model_superpose Model_zone Model_rmsd Proofs_zone Proofs_routes Proofs_contact_c05 Proofs_zone_source Proofs_contact_c08 Proofs_fnat_routes Proofs_routes_l.
 Open Scope string_scope.
 
 (* every chain identifier that is one character, not blank and not '-', and EVERY integer residue
@@ -57,10 +57,31 @@ Theorem C09_sql_zone_source_irrelevant : forall cutoff ref c1 c2, (0 <= cutoff)%
 Proof. exact sql_rows_from_computed_zone. Qed.
 Print Assumptions C09_sql_zone_source_irrelevant.
 
+(* fast = SQL for the L-RMSD, same setting (same atoms, same order), with the ligand zone the library computes from the
+   reference, whenever the two routes pick the same long chain — they choose it by different counts (reference atoms vs
+   selected decoy atoms, ties to the second chain), and where that differs is known finding F5 *)
+Theorem C09_lrmsd_routes_agree_partial : forall decoy ref c1 c2 names, aligned decoy ref -> get_chains ref = [c1; c2] ->
+  Nat.ltb (List.length (sel names decoy c2)) (List.length (sel names decoy c1))
+  = negb (Nat.ltb (List.length (chain_atoms ref c1)) (List.length (chain_atoms ref c2))) ->
+  compute_lzone ref = Ok (lz ref c1 c2) /\
+  forall rmat check enforce m m',
+    lrmsd_fast rmat (lz ref c1 c2) check enforce names decoy ref = Ok m ->
+    lrmsd_sql rmat enforce names decoy ref = Ok m' -> (m == m')%Q.
+Proof. exact lrmsd_routes_agree_full. Qed.
+Print Assumptions C09_lrmsd_routes_agree_partial.
+
+(* fast = SQL for Fnat: both routes equal the same specification (C08_fnat_fast_exact, C08_fnat_sql_exact); whenever the fast
+   reader's view of the decoy text is the decoy table, they return the same value, or the same error *)
+Theorem C09_fnat_routes_agree : forall cutoff ref dec lines c1 c2,
+  wf ref -> wf dec -> get_chains ref = [c1; c2] -> get_chains dec = [c1; c2] ->
+  fast_read lines = Ok dec -> every_residue_has_heavy dec ->
+  compute_fnat_fast cutoff ref lines = compute_fnat_pdb2sql cutoff dec ref.
+Proof. exact fnat_routes_agree. Qed.
+Print Assumptions C09_fnat_routes_agree.
+
 (* PARTIAL: for structures that are not aligned (missing atoms, permuted records) fast = SQL follows from C07 (both
    routes pair by identity — the fast one only under the same-relative-order condition, F6 — and report the kernel
-   residual), and svd = quaternion from C06_methods_agree (both kernels attain the same minimum); L-RMSD and Fnat
-   route agreement likewise; all are decided on every run by running all call forms of each measure.
+   residual), and svd = quaternion from C06_methods_agree (both kernels attain the same minimum); all are decided on every run by running all call forms of each measure.
    The L-RMSD routes differ on ambiguous chain sizes: known finding F5. *)
 Example C09_example :
   write_zone [("A", 4%Z); ("A", (-2)%Z); ("b", 0%Z)] = "zone A4-A4
